@@ -1,11 +1,30 @@
+//! Pure-logic monitors: C27 (sync batching), C28 (sync state), C31 (peer slots
+//! and reputation), C34 (gas price bounds / rate), C35 (worst-case estimates).
+//! Every monitor drives the real fuel-core code and judges each observed result
+//! with an oracle written from the property text.
+
 use vcommon::*;
+
+mod c27;
+mod c28;
+mod c31;
+mod c34;
+mod c35;
+mod util;
 
 fn main() {
     let args = Args::parse();
     install_quiet_panic_hook();
     let report = Report::new(&args.property);
     match args.property.as_str() {
-        other => report.inconclusive(format!("property {other} not implemented in this monitor")),
+        "C27" => c27::run(&args, &report),
+        "C28" => c28::run(&args, &report),
+        "C31" => c31::run(&args, &report),
+        "C34" => c34::run(&args, &report),
+        "C35" => c35::run(&args, &report),
+        other => {
+            report.inconclusive(format!("property {other} not implemented in this monitor"));
+            report.finish(&args, "exploration", "", false, &[]);
+        }
     }
-    report.finish(&args, "exploration", "", false, &[]);
 }
